@@ -49,7 +49,16 @@ fn work_chunk(types: &[Ty]) -> Value {
             let fs = first_per_class(fs);
             if samples.len() < 3 {
                 let vs = refabi::universe::values(ty);
-                samples.push(json!({"type": ty.to_string(), "values": vs.len(), "first_value": vs[0].to_string(), "last_value": vs[vs.len()-1].to_string()}));
+                let k = samples.len();
+                let pols = c01::policies(ty);
+                let width = if k % 2 == 0 { 4 } else { 8 };
+                let form = match k % 3 {
+                    0 => "flat (lower_flat, lift via call(GuestExport,LiftArgsLowerResults))",
+                    1 => "memory at base+24, prefill 0x5a",
+                    _ => "memory at base+8, prefill 0xa5",
+                };
+                samples.push(json!({"type": ty.to_string(), "value": vs[(k * 5 + 1) % vs.len()].to_string(), "of_values": vs.len(),
+                    "pointer_width": width, "list_policy": format!("{:?}", pols[k % pols.len()]), "form": form}));
             }
             for f in fs {
                 let is_panic = f.class.starts_with("panic:");
@@ -92,7 +101,7 @@ fn main() {
         std::process::exit(if still { 1 } else { 0 });
     }
 
-    let uni_name = run.pick("quick", "thorough");
+    let uni_name = run.pick("quick", "deep");
     let mut types = refabi::universe::universe(uni_name);
     rotate(&mut types, run.seed);
     let chunks: Vec<Vec<Ty>> = types.chunks(CHUNK).map(|c| c.to_vec()).collect();
